@@ -113,6 +113,21 @@ def npidx_stream(R: Run, Rm, GeoBox, GeoboxTiles, BlockAssembler):
                                   "r": int(r), "c": int(c)},
                                  f"{ep}[{np.dtype(dt).name}({r}), {np.dtype(dt).name}({c})] = {got[:120]}, with Python ints {want[:120]}",
                                  sig=f"npidx|{ep}|{np.dtype(dt).name}|{'refused' if got.startswith('ERR:') else 'answered'}")
+                # model correspondence on the row axis (Model/C04Np: conversion in tile_shape / locate, refusal in [])
+                from .c04 import ns, tiling_tok
+
+                ttok = tiling_tok(kind, sy)
+                tname = ("u" if np.dtype(dt).kind == "u" else "i") + str(np.dtype(dt).itemsize * 8)
+                for r in sub(rows, 8 if quick else 30):
+                    R.corr(f"c04 np shape {ttok} {tname}:{r}", lambda r=r: str(int(t.tile_shape((dt(r), 0)).y)),
+                           sig=f"np-corr|shape|{tname}")
+                    R.corr(f"c04 np get {ttok} {tname}:{r}", lambda r=r: ns(t[dt(r), 0][0]), sig=f"np-corr|get|{tname}")
+                    if -2 ** 63 <= r < 2 ** 63 - 1:  # beyond a C long numpy's own indexing raises OverflowError (outside Spec/NpArray)
+                        R.corr(f"c04 np get {ttok} p:{r}", lambda r=r: ns(t[int(r), 0][0]), sig="np-corr|get|py")
+                for py_ in sub(sorted({v for v in (0, 1, NY - 1, NY, -1, min(np.iinfo(dt).max, NY - 1), NY // 2)
+                                       if np.iinfo(dt).min <= v <= np.iinfo(dt).max}), 6):
+                    R.corr(f"c04 np locate {ttok} {tname}:{py_}", lambda py_=py_: str(int(t.locate((dt(py_), 0))[0])),
+                           sig=f"np-corr|locate|{tname}")
                 # pixel -> tile -> region round trip with pixel coordinates of this dtype
                 info = np.iinfo(dt)
                 pys = [v for v in {0, 1, NY - 1, NY // 2, min(info.max, NY - 1), min(info.max, NY - 1) - 1, -1, NY} if info.min <= v <= info.max]
